@@ -320,7 +320,11 @@ func vfC25Case(rep *vk.Report, d *vfDB, tbl *vfTable, ei int, th *Thread) {
 			if got[vfPack(row["k"])] != want {
 				w := wit(row, langOf[ri], qtext, fmt.Sprintf("where selects the row: %v, language says %v; strategy %s", !want, want, res.strategy))
 				w.Table = d.describe()
-				rep.Violate("C25/where-differs", qtext+" on "+vfRowText(row, names), w)
+				cl := "C25/where-differs"
+				if want && strings.Contains(strings.ToLower(res.strategy), "nothing") && vfEmptyRangeInOr(e) {
+					cl += "/where-or-with-empty-range-becomes-nothing"
+				}
+				rep.Violate(cl, qtext+" on "+vfRowText(row, names), w)
 			}
 			rep.Count("where_rows_checked", 1)
 		}
@@ -378,6 +382,9 @@ func vfHasConstDiv(e *vfExpr) bool {
 	if e.op == "div" {
 		l := e.args[0]
 		for l.op == "paren" {
+			l = l.args[0]
+		}
+		for l.op == "paren" || l.op == "neg" || l.op == "uplus" || l.op == "bitnot" {
 			l = l.args[0]
 		}
 		if l.op == "const" || l.op == "mul" || l.op == "div" {
